@@ -372,10 +372,12 @@ func (f *Func) reachTarget(
 			}
 		}
 
-		// If we're skipping because we have this value already, then
-		// note that we're using this input in the input set.
+		// If we're skipping because we have this value already, there is
+		// nothing to resolve. Note that a vertex that has a value is not
+		// necessarily an input: it may hold the result of a conversion that
+		// already ran, so it must not be recorded in the input set here. The
+		// inputs a path starts from are recorded when the path is chosen.
 		if skip {
-			state.InputSet[graph.VertexID(out)] = out
 			continue
 		}
 
